@@ -96,7 +96,7 @@ func blockContentWidth(context *layoutContext, box Box, function fnBlock, outer 
 		// https://dbaron.org/css/intrinsic/#outer-intrinsic
 		var max pr.Float = 0
 		for _, child := range box.Box().Children {
-			if !child.Box().IsAbsolutelyPositioned() {
+			if !(child.Box().IsAbsolutelyPositioned() || child.Box().IsRunning()) {
 				v := function(context, child, true)
 				if v > max {
 					max = v
@@ -286,7 +286,7 @@ func tableCellMinContentWidth(context *layoutContext, box_ Box, outer bool) pr.F
 	box := box_.Box()
 	var maxChildrenWidths pr.Float
 	for _, child := range box.Children {
-		if !child.Box().IsAbsolutelyPositioned() {
+		if !(child.Box().IsAbsolutelyPositioned() || child.Box().IsRunning()) {
 			v := minContentWidth(context, child, true)
 			if v > maxChildrenWidths {
 				maxChildrenWidths = v
@@ -326,7 +326,7 @@ func inlineLineWidths(context *layoutContext, box_ Box, outer, isLineStart,
 		skip, skipStack = skipStack.Unpack()
 	}
 	for _, child := range box.Children[skip:] {
-		if child.Box().IsAbsolutelyPositioned() {
+		if child.Box().IsAbsolutelyPositioned() || child.Box().IsRunning() {
 			continue // Skip
 		}
 		textBox, isTextBox := child.(*bo.TextBox)
